@@ -1,5 +1,5 @@
 (* Entry point for the extracted executable of C13: decodes cases, runs the model. *)
-From CV Require Import Base.Bytes Robust.Links.
+From CV Require Import Base.Bytes Robust.Links Robust.Validate.
 Local Open Scope N_scope.
 
 Definition BAD : list str := [[66]].    (* "B": malformed case *)
@@ -13,12 +13,6 @@ Definition tk_of (s : str) : tk :=
   | _ => TOther
   end.
 
-Fixpoint partner (ls : list (nat * nat)) (i : nat) : option nat :=
-  match ls with
-  | [] => None
-  | (o, c) :: r => if Nat.eqb o i then Some c else if Nat.eqb c i then Some o else partner r i
-  end.
-
 Definition show_nat (n : nat) : str := dec_of_N (N.of_nat n).
 
 Definition show_outcome (n : nat) (o : outcome) : list str :=
@@ -28,9 +22,31 @@ Definition show_outcome (n : nat) (o : outcome) : list str :=
   | UB => [[85; 66]]
   end.
 
+(* Token::Match(tok, "[{([]") etc. compare the whole string *)
+Definition vk_of (s : str) : vk :=
+  match s with
+  | [123] | [40] | [91] => VOpen
+  | [125] | [41] | [93] => VClose
+  | [60] => VLt
+  | [62] | [62; 62] => VGt
+  | _ => VOther
+  end.
+
+Definition link_of (s : str) : option nat :=
+  match N_of_dec s with Some n => Some (N.to_nat n) | None => None end.
+
+Fixpoint vtoks (l : list str) : list vtok :=
+  match l with
+  | t :: k :: r => (vk_of t, link_of k) :: vtoks r
+  | _ => []
+  end.
+
+Definition show_vres (r : vres) : list str :=
+  match r with VOk => [[111; 107]] | VErr i => [[69]; show_nat i] end.
+
 (* "links" tok... -> "ok" partner-or-"-" per token | "E" index | "UB"
    "simple" tok... -> the same through the one-stack algorithm
-   "bal" tok...    -> "1" if accepted *)
+   "validate" (tok link)... -> "ok" | "E" index   (link = index or "-") *)
 Definition run (l : list str) : list str :=
   match l with
   | tag :: toks =>
@@ -38,6 +54,8 @@ Definition run (l : list str) : list str :=
         show_outcome (length toks) (create_links (map tk_of toks))
       else if str_eqb tag [115; 105; 109; 112; 108; 101] then
         show_outcome (length toks) (simple_links (map tk_of toks))
+      else if str_eqb tag [118; 97; 108; 105; 100; 97; 116; 101] then
+        show_vres (validate (vtoks toks))
       else BAD
   | [] => BAD
   end.
